@@ -113,6 +113,20 @@ CLAIMED["C13"] = dict(
     note="The smoothed RTT is an input. One genuine defect (pull released after an RTT-widened window) is recorded in "
          "known_findings.json and reported as KNOWN-FINDING; any other release without a byte is a violation.")
 
+CLAIMED["C17"] = dict(
+    engine="tlc+weakfilter", design_ref="4.17",
+    technique="TLA+ model of classify() with history-variable monitors for the five clauses; TLC on the complete "
+              "2-link graph at the real constants; TLC transitions replayed on the real WeakLinkFilter; recorded tick "
+              "histories validated by TLC",
+    text="TLC explores the complete reachable graph of the classifier for 2 links at the real constants (15-tick "
+         "probation interval, 3-tick window, 2-tick sustain; 81 inputs per tick) and checks not-weak-when-off, "
+         "two-tick delay, bounded share-weak runs followed by the probation window, and the enter/leave thresholds; "
+         "1.4e5 transitions (all inputs to depth 4, share-starved paths to depth 24) are executed on the real "
+         "classifier incl. disconnected-but-present links and links leaving the set, and 20k-200k tick histories "
+         "with rates in bit/s over 4 link slots are validated against the same module.",
+    note="The delay signal is an input: the tier cascade is driven with RTTs far above / below every tier. The "
+         "verdict sequence (weak, reason class, share, threshold) is compared exactly.")
+
 PENDING = {}
 
 def main():
